@@ -32,6 +32,8 @@ type c05Case struct {
 	RecvCW bool    `json:"recvcw"` // the receiver shuts its write side down (CloseWrite) before it reads
 	// Many > 0: Writes is Many writes of 1..4 bytes (more records than a 16-bit counter holds)
 	Many int `json:"many,omitempty"`
+	// Fill > 0: every payload byte has this value (runs of equal bytes, e.g. blanks)
+	Fill int `json:"fill,omitempty"`
 }
 
 func (c c05Case) expand() c05Case {
@@ -42,6 +44,13 @@ func (c c05Case) expand() c05Case {
 		}
 	}
 	return c
+}
+
+func c05Payload(c c05Case, i, n int) []byte {
+	if c.Fill > 0 {
+		return bytes.Repeat([]byte{byte(c.Fill)}, n)
+	}
+	return c01Payload(n, byte(i+3))
 }
 
 type c05Out struct {
@@ -62,7 +71,7 @@ func c05Exec(c c05Case) (out c05Out, sig, msg string) {
 	var hist [][]byte
 	var chunks [][]byte
 	for i, n := range c.Writes {
-		chunks = append(chunks, c01Payload(n, byte(i+3)))
+		chunks = append(chunks, c05Payload(c, i, n))
 	}
 	var sim *vfStream
 	appIdx := -1
@@ -115,6 +124,24 @@ func c05Exec(c c05Case) (out c05Out, sig, msg string) {
 				e.cutAfter = len(e.sentOut) + ed.Off
 				out.applied = true
 			}
+		case "reblock":
+			// CBC: the record keeps its IV and Off ciphertext blocks - the first Off (Mask 0) or the first
+			// one followed by the last Off-1 (Mask 1: inner blocks cut out) - with the length field adjusted
+			body := rec[5:]
+			if vfIsGCM(c.Suite) || len(body) < 16+16*(ed.Off+1) || ed.Off < 1 {
+				return [][]byte{rec}
+			}
+			blocks := body[16:]
+			var nb []byte
+			if ed.Mask == 0 {
+				nb = append(nb, blocks[:16*ed.Off]...)
+			} else {
+				nb = append(nb, blocks[:16]...)
+				nb = append(nb, blocks[len(blocks)-16*(ed.Off-1):]...)
+			}
+			frag := append(append([]byte(nil), body[:16]...), nb...)
+			out.applied = true
+			return [][]byte{append([]byte{rec[0], rec[1], rec[2], byte(len(frag) >> 8), byte(len(frag))}, frag...)}
 		case "longpad":
 			keys, err := refKeysOfTaps(sim.ends[0].wrote, sim.ends[1].wrote, cc)
 			if err != nil || keys.GCM {
@@ -241,7 +268,7 @@ func c05Check(c c05Case) (sig, msg string, classes []string, applied bool) {
 	for i, n := range c.Writes {
 		if n > 0 {
 			nonEmpty++
-			plain = append(plain, c01Payload(n, byte(i+3)))
+			plain = append(plain, c05Payload(c, i, n))
 		}
 	}
 	if out.nRecords != nonEmpty {
@@ -260,7 +287,7 @@ func c05Check(c c05Case) (sig, msg string, classes []string, applied bool) {
 			} else {
 				prefixRecs = ed.Rec
 			}
-		case "flip", "swap", "inject", "replay":
+		case "flip", "swap", "inject", "replay", "reblock":
 			prefixRecs = ed.Rec
 		case "drop":
 			prefixRecs = ed.Rec
@@ -298,6 +325,11 @@ func c05Check(c c05Case) (sig, msg string, classes []string, applied bool) {
 		return "trunc-inside-record", fmt.Sprintf("stream cut inside a record reported as %v, want io.ErrUnexpectedEOF", out.firstErr), nil, out.applied
 	}
 	cls := []string{"edit:" + ed.Kind}
+	if out.applied && ed.Kind == "reblock" && !c.RecvCW {
+		if len(out.alerts) != 1 || out.alerts[0][1] != 20 {
+			return "cbc-alert", fmt.Sprintf("CBC record cut down to %d blocks (inner blocks removed: %v; payload bytes all %#02x) answered with alerts %v, want exactly bad_record_mac(20)", ed.Off, ed.Mask == 1, c.Fill, out.alerts), nil, out.applied
+		}
+	}
 	if out.applied && (ed.Kind == "flip" || (ed.Kind == "longpad" && ed.Mask != 0)) && !c.RecvCW {
 		field := "fragment"
 		switch {
@@ -340,7 +372,7 @@ func c05Structural(nrec int) []c05Edit {
 }
 
 func TestVF_C05(t *testing.T) {
-	rec := vfRec("C05", "C05-records", "one edit on the protected application records of one direction after an honest handshake: flip (every byte of every record x masks 01,80,FF), drop, duplicate, swap, replay of an earlier record in place of a later one (also after 250+ records at distances 1, 2, 254..257, and after 65540 records at distance 2^16), truncate at every boundary and inside records, inject plaintext/garbage records of 6 content types x 4 bodies; x cipher modes x directions x write profiles; oracle: delivered bytes = whole records before the damage, then a sticky error (io.EOF only for a cut at a record boundary, ErrUnexpectedEOF inside a record), alerts decoded with the reference must be bad_record_mac for every fragment damage; non-trivial = edit applied to a protected record; distinct = (suite, direction, profile, edit)")
+	rec := vfRec("C05", "C05-records", "one edit on the protected application records of one direction after an honest handshake: flip (every byte of every record x masks 01,80,FF), drop, duplicate, swap, replay of an earlier record in place of a later one (also after 250+ records at distances 1, 2, 254..257, and after 65540 records at distance 2^16), truncate at every boundary and inside records, CBC records cut down to 1..4 whole blocks (from the front, or with the inner blocks removed) over payloads that are runs of one byte value, inject plaintext/garbage records of 6 content types x 4 bodies; x cipher modes x directions x write profiles; oracle: delivered bytes = whole records before the damage, then a sticky error (io.EOF only for a cut at a record boundary, ErrUnexpectedEOF inside a record), alerts decoded with the reference must be bad_record_mac for every fragment damage; non-trivial = edit applied to a protected record; distinct = (suite, direction, profile, edit)")
 	suites := []uint16{ECC_SM4_GCM_SM3, ECC_SM4_CBC_SM3}
 	profiles := [][]int{{1, 40, 17, 300}}
 	if vfThorough() {
@@ -454,6 +486,25 @@ func TestVF_C05(t *testing.T) {
 			idx++
 			if vfMine(idx) {
 				run(c05Case{Suite: suite, Dir: dir, Writes: long, Edit: c05Edit{Kind: "swap", Rec: 255}})
+			}
+		}
+	}
+	// CBC records cut down to whole blocks, payloads that are runs of one byte value (so that the tail
+	// of the forgery may decrypt to something that looks like padding)
+	for _, suite := range []uint16{ECC_SM4_CBC_SM3, ECDHE_SM4_CBC_SM3} {
+		for dir := 0; dir < 2; dir++ {
+			for _, fill := range []int{0x20, 0x10, 0x2f, 0x0f, 0xff, 0} {
+				for _, size := range []int{74, 200} {
+					for k := 1; k <= 4; k++ {
+						for _, mask := range []byte{0, 1} {
+							idx++
+							if !vfMine(idx) {
+								continue
+							}
+							run(c05Case{Suite: suite, Dir: dir, Writes: []int{5, size, 7}, Fill: fill, Edit: c05Edit{Kind: "reblock", Rec: 1, Off: k, Mask: mask}})
+						}
+					}
+				}
 			}
 		}
 	}
